@@ -135,6 +135,18 @@ func ProfileFor(focus, arm string) Profile {
 		p.Unix = 0.3
 		p.RepeatToken = 0.2
 		p.OddQueries = 0.1
+	case "C07", "C08", "C19":
+		p.Cache = "ample"
+		if focus == "C07" && arm == "tiny" {
+			p.Cache = "tiny"
+		}
+		p.IpMarker = 0.7
+		p.ECS = 0.5
+		p.NUpstreams = [2]int{1, 2}
+		p.Rcodes = focus == "C08"
+		if focus == "C08" {
+			p.TTLs = "edge"
+		}
 	case "C13":
 		p.Listeners = []string{"tcp", "gnet", "tls"}
 		p.NConns, p.OpsPerConn = [2]int{1, 4}, [2]int{1, 40}
@@ -690,6 +702,8 @@ func makeGarbage(r *rng, op *plan.ClientOp, proto string) {
 func specialize(r *rng, p *plan.Plan, focus, arm string) {
 	rp := p.Router
 	switch focus {
+	case "C07", "C08", "C19":
+		genCacheOps(r, p, focus, arm)
 	case "C01":
 		// liveness probes: one valid op per listener after everything else, on a fresh transport
 		var last int64
@@ -743,4 +757,191 @@ func specialize(r *rng, p *plan.Plan, focus, arm string) {
 			rp.Cache.MemSize = 0
 		}
 	}
+}
+
+// genCacheOps replaces the client side of the plan with a workload made for
+// the cache properties: few keys, many timed repeats from clients of
+// different groups, one transport per operation.
+func genCacheOps(r *rng, p *plan.Plan, focus, arm string) {
+	rp := p.Router
+	rp.Conns, rp.Ops = nil, nil
+	rp.Tokens = map[string]*plan.TokenSpec{}
+	rp.Rules = []plan.RuleSpec{{Forward: rp.Upstreams[0].Tag}}
+	if len(rp.Upstreams) > 1 && r.p(0.5) {
+		rp.DomainSets = []plan.DomainSetSpec{{Tag: "set0", Files: [][]string{{"test.org"}}}}
+		rp.Rules = []plan.RuleSpec{{Domain: "set0", Forward: rp.Upstreams[1].Tag}, {Forward: rp.Upstreams[0].Tag}}
+	} else {
+		rp.DomainSets = nil
+	}
+	for i := range rp.Servers {
+		rp.Servers[i].MTLS = false
+	}
+	// /24- and /56-aligned ranges so that an ECS prefix identifies the group
+	if len(rp.Cache.IpMarker) > 0 {
+		rp.Cache.IpMarker = []plan.RangeSpec{
+			{Start: "192.0.2.0", End: "192.0.2.255", Label: "net-a"}, {Start: "198.51.100.0", End: "198.51.100.255", Label: "net-b"},
+			{Start: "203.0.113.0", End: "203.0.113.255", Label: "net-a"},
+			{Start: "2001:db8:a::", End: "2001:db8:a:ff:ffff:ffff:ffff:ffff", Label: "net-a"},
+			{Start: "2001:db8:b::", End: "2001:db8:b:ff:ffff:ffff:ffff:ffff", Label: "net-c"},
+		}
+	}
+	srcs4 := []string{"192.0.2.7", "192.0.2.200", "198.51.100.9", "203.0.113.77", "100.64.1.1"}
+	srcs6 := []string{"2001:db8:a::5", "2001:db8:b:12::9", "2001:db8:ffff::1"}
+	nk := r.rng(1, 4)
+	var last int64
+	for k := 0; k < nk; k++ {
+		tok := fmt.Sprintf("t%d", k)
+		zone := r.pick(zones)
+		qtype := []uint16{1, 28, 16, 15, 5}[r.intn(5)]
+		t := &plan.TokenSpec{}
+		a := &t.Ans
+		a.Shape = "plain"
+		a.NAn, a.NNs, a.NAr = r.rng(1, 3), r.intn(2), r.intn(2)
+		a.Compress = r.intn(4)
+		var life int64 // seconds
+		switch focus {
+		case "C19":
+			life = int64([]int{4, 8, 20, 60, 300, 600}[r.intn(6)])
+			a.TTLs = []uint32{uint32(life), uint32(life + int64(r.intn(100)))}
+		case "C08":
+			a.TTLs = nil
+			for n := r.rng(1, 3); n > 0; n-- {
+				a.TTLs = append(a.TTLs, []uint32{0, 1, 2, 3, 5, 10, 30, 60, 300, 4294967295, 86400}[r.intn(11)])
+			}
+			if r.p(0.35) {
+				a.Rcode = []int{3, 2, 5, 1, 9}[r.intn(5)]
+				if r.p(0.5) {
+					a.NAn = 0
+				}
+				if r.p(0.3) {
+					a.NAn, a.NNs, a.NAr = 0, 0, 0
+				}
+			}
+			if r.p(0.1) {
+				a.NAn, a.NNs, a.NAr = 0, 0, 0
+			}
+			if r.p(0.12) {
+				a.Bits |= refdns.BitTC
+			}
+			life = 30
+			min := uint32(0xffffffff)
+			for _, x := range a.TTLs {
+				if x < min {
+					min = x
+				}
+			}
+			if int64(min) < life {
+				life = int64(min)
+			}
+			if life < 2 {
+				life = 2
+			}
+		default:
+			life = int64([]int{5, 10, 30, 60, 600}[r.intn(5)])
+			a.TTLs = []uint32{uint32(life), uint32(life * 2)}
+		}
+		delay := func() int64 { return r.i64(200, 40_000) }
+		t.Acts = []plan.UpAction{{Kind: "reply", DelayUs: delay()}}
+		switch focus {
+		case "C19":
+			// the refresh: slow, failing, or negative
+			switch r.intn(5) {
+			case 0:
+				t.Acts = append(t.Acts, plan.UpAction{Kind: "reply", DelayUs: r.i64(1000, 5_500_000)})
+			case 1:
+				t.Acts = append(t.Acts, plan.UpAction{Kind: "silent"}, plan.UpAction{Kind: "reply", DelayUs: delay()})
+			case 2:
+				neg := *a
+				neg.Rcode, neg.NAn = []int{3, 2, 5}[r.intn(3)], 0
+				t.Ans2, t.Ans2From = &neg, 1
+				t.Acts = append(t.Acts, plan.UpAction{Kind: "reply", DelayUs: r.i64(1000, 2_000_000)})
+			case 3:
+				t.Acts = append(t.Acts, plan.UpAction{Kind: "garbage", Raw: []byte{1, 2, 3}, DelayUs: delay()}, plan.UpAction{Kind: "reply", DelayUs: delay()})
+			default:
+				t.Acts = append(t.Acts, plan.UpAction{Kind: "reply", DelayUs: delay()})
+			}
+		case "C08":
+			if r.p(0.3) {
+				// a later generation turns negative (or positive): displacement scenarios
+				alt := *a
+				if a.Rcode == 0 {
+					alt.Rcode, alt.NAn = []int{3, 2, 5}[r.intn(3)], 0
+				} else {
+					alt.Rcode, alt.NAn = 0, 2
+				}
+				alt.Bits &^= refdns.BitTC
+				t.Ans2, t.Ans2From = &alt, r.rng(1, 2)
+			}
+			if r.p(0.15) {
+				t.Acts = append([]plan.UpAction{{Kind: []string{"silent", "fin", "garbage"}[r.intn(3)], Raw: []byte{9}, DelayUs: delay()}}, t.Acts...)
+			}
+		}
+		rp.Tokens[tok] = t
+		// operations on this key
+		t0 := r.i64(20_000, 2_000_000)
+		nops := r.rng(3, 30)
+		span := life * 1_000_000 * int64(r.rng(1, 3))
+		for i := 0; i < nops; i++ {
+			var at int64
+			switch {
+			case i == 0:
+				at = t0
+			case focus == "C19" && r.p(0.7):
+				// inside / around the last quarter, in bursts
+				at = t0 + life*1_000_000*int64(70+r.intn(32))/100 + r.i64(0, 3000)
+			case focus == "C08" && r.p(0.4):
+				// around expiry
+				at = t0 + life*1_000_000 + r.i64(-2_500_000, 3_500_000)
+			default:
+				at = t0 + r.i64(1000, span+1000)
+			}
+			if at < 10_000 {
+				at = 10_000
+			}
+			si := r.intn(len(rp.Servers))
+			srv := rp.Servers[si]
+			ci := len(rp.Conns)
+			cc := plan.ClientConn{Idx: ci, Server: si, LingerUs: 8_000_000}
+			switch {
+			case strings.HasPrefix(srv.Listen, "127.") || strings.HasPrefix(srv.Listen, "0.0.0.0"):
+				cc.Src = r.pick(srcs4)
+			case strings.HasPrefix(srv.Listen, "[::1]"):
+				cc.Src = r.pick(srcs6)
+			default:
+				if r.p(0.6) {
+					cc.Src = r.pick(srcs4)
+				} else {
+					cc.Src = r.pick(srcs6)
+				}
+			}
+			cc.HTTP2 = srv.Proto == "https" && r.p(0.5)
+			if srv.ClientAddrHeader != "" && r.p(0.5) {
+				cc.XFF = []string{"203.0.113.9", "2001:db8:b::77", "192.0.2.44"}[r.intn(3)]
+			}
+			rp.Conns = append(rp.Conns, cc)
+			op := plan.ClientOp{Idx: len(rp.Ops), Conn: ci, AtUs: at, ID: uint16(r.u64()), Token: tok, NQ: 1, Class: 1, Type: qtype, Bits: refdns.BitRD}
+			ls := append([][]byte{[]byte(tok)}, labelsOf(zone)...)
+			for j := range ls {
+				ls[j] = mixCase(r, ls[j])
+			}
+			op.Labels = ls
+			if r.p(0.12) {
+				op.Type = qtype + 1 // another key, same token
+			} else if r.p(0.08) {
+				op.Class = 3
+			}
+			if r.p(0.5) {
+				op.EDNS = &plan.EDNSSpec{UDPSize: []uint16{512, 1232, 4096}[r.intn(3)]}
+			}
+			if srv.Proto == "http" || srv.Proto == "fasthttp" || srv.Proto == "https" {
+				op.Method = []string{"GET", "POST"}[r.intn(2)]
+			}
+			rp.Ops = append(rp.Ops, op)
+			if at > last {
+				last = at
+			}
+		}
+	}
+	rp.HorizonUs = last + 8_000_000 + 12_000_000
+	p.Knobs.GCEveryUs = 0
 }
